@@ -628,6 +628,15 @@ class SymEval:
                 self.bind(alts[0], val, env)
         elif k in ("plit", "ppath", "prange"):
             pass
+        elif k == "pslice" and "mid" not in pat:
+            # let [a, b, c] = array
+            ps = list(pat.get("before", [])) + list(pat.get("after", []))
+            if isinstance(val, tuple) and len(val) == 2 and val[0] == "array" and len(val[1]) == len(ps):
+                for p_, v_ in zip(ps, val[1]):
+                    self.bind(p_, unkey(v_) if isinstance(v_, tuple) and len(v_) == 2 and v_[0] == "P" else v_, env)
+            else:
+                for i, p_ in enumerate(ps):
+                    self.bind(p_, app("index", val, num(i)), env)
         else:
             raise Unsupported("pattern " + str(k))
 
@@ -687,6 +696,8 @@ class SymEval:
             d = n["def"]
             if dk.startswith("Ctor"):
                 return ("variant", d.rsplit("::", 1)[-1])
+            if d == "std::f64::consts::FRAC_1_SQRT_2" and self.mode == "real":
+                return app("sqrt", num(Fraction(1, 2)))      # the f64 constant is the correctly rounded sqrt(0.5) (the f32 one is not)
             if dk.startswith("AssocConst") or dk.startswith("Const") or dk.startswith("Static"):
                 b = self.F.bodies.get(d)
                 if b is not None and b.hir and self.depth < self.max_depth and \
@@ -756,6 +767,16 @@ class SymEval:
     INT_TYPES = {"usize", "isize", "u8", "u16", "u32", "u64", "u128", "i8", "i16", "i32", "i64", "i128"}
 
     def arith(self, op, a, b, integer=False):
+        isb_ = lambda x: isinstance(x, tuple) and len(x) == 2 and x[0] == "bool"
+        if op in ("BitOr", "BitAnd", "BitXor", "Add", "Mul", "Shl") and (isb_(a) != isb_(b)) and (isinstance(a, Poly) or isinstance(b, Poly)):
+            # usize::from(flag) | x : a known flag used as 0 / 1
+            a = num(int(a[1])) if isb_(a) else a
+            b = num(int(b[1])) if isb_(b) else b
+        if op in ("BitOr", "BitAnd", "BitXor", "Shl", "Shr") and isinstance(a, Poly) and isinstance(b, Poly):
+            ca_, cb_ = a.const_value(), b.const_value()
+            if ca_ is not None and cb_ is not None and ca_.denominator == 1 and cb_.denominator == 1 and ca_ >= 0 and cb_ >= 0:
+                x_, y_ = int(ca_), int(cb_)
+                return num({"BitOr": x_ | y_, "BitAnd": x_ & y_, "BitXor": x_ ^ y_, "Shl": x_ << y_ if y_ < 64 else 0, "Shr": x_ >> y_}[op])
         if op in ("Add", "Sub", "Mul") and isinstance(a, Poly) and isinstance(b, Poly):
             return a + b if op == "Add" else (a - b if op == "Sub" else a * b)
         if op in ("Add", "Sub", "Mul", "Div") and self.mode == "real" and not (integer and op == "Div") and \
@@ -1040,6 +1061,14 @@ class SymEval:
         cs = self.const_search(path, args)
         if cs is not None:
             return cs
+        if path and path.startswith(("core::array::", "std::array::")) and path.endswith("::map") and len(args) == 2:
+            # [a, b, ..].map(f) = [f(a), f(b), ..]
+            seq = self.const_seq(args[0])
+            if seq is not None and isinstance(args[1], tuple) and args[1] and args[1][0] in ("closure", "fn"):
+                try:
+                    return ("array", [self.apply(args[1], [unkey(el)]) for el in seq])
+                except Unsupported:
+                    pass
         if path in ("core::bool::<impl bool>::then_some", "core::bool::<impl bool>::then") and len(args) == 2:
             v = args[1]
             if path.endswith("::then") and isinstance(v, tuple) and v and v[0] in ("closure", "fn"):
@@ -1080,6 +1109,18 @@ class SymEval:
 
     def const_search(self, path, args):
         """find / position / any / all / find_map over a literal table with a predicate that folds to constants"""
+        if path and path.endswith("Iterator::fold") and len(args) == 3:
+            seq = self.const_seq(args[0])
+            f = args[2]
+            if seq is not None and isinstance(f, tuple) and f and f[0] in ("closure", "fn"):
+                acc = args[1]
+                try:
+                    for el in seq:
+                        acc = self.apply(f, [acc, unkey(el)])
+                except Unsupported:
+                    return None
+                return acc
+            return None
         if not path or not path.startswith(("std::iter::Iterator::", "core::iter::")) or len(args) != 2:
             return None
         base = path.rsplit("::", 1)[-1]
